@@ -66,7 +66,8 @@ def arms_sweep(rep, tables, first_base, tier):
     rep.extra_cov["arms_not_in_this_build"] = [a["cfg"] for a in info["skipped"]]
     rep.extra_cov["arms"] = [a["text"] for a in info["arms"]]
     rep.extra_cov["arms_conversions"] = [f"{c['name']}: {c['text']}" for c in info["convs"] + info["defaults"] + info["into_extras"]]
-    rep.extra_cov["arms_module_macros"] = [a["text"] for a in info["mod_arms"]]
+    rep.extra_cov["arms_module_macros"] = [a["text"] for a in info["mod_arms"]] + [h["text"] for h in info.get("hand_wrappers", [])]
+    rep.extra_cov["arms_macro_defaults"] = {"game!": info.get("game_default"), "valve::game_query_mod!": info.get("valve_mod_default")}
     if not info["translated"]:
         rep.tie_failures.append("translator (arms): " + "; ".join(info["errors"]))
     lines = []
